@@ -525,6 +525,10 @@ def shards(tier, seed):  # pylint: disable=too-many-locals,too-many-statements
                 lows = sorted({0x5600 // step * step, 0, 0x0a0a // step * step, lows[seed % pieces]})
                 if base_idx == 1 and pos != 1:
                     continue
+            elif (base_idx, pos) != (0, 0):
+                # thorough: the whole code space at one position, the marker ranges and 6 rotated ones at the others
+                lows = sorted({0x5600 // step * step, 0, 0x0a0a // step * step} |
+                              {lows[(seed * 5 + pos * 7 + k * 11) % pieces] for k in range(6)})
             for low in lows:
                 out.append(Shard(MOD, 'client_hello_suite', 'client_hello/suite/%d-%d/%04x' % (base_idx, pos, low),
                                  {'SUITES': base, 'POS': pos, 'LO': low, 'HI': low + step}, 600,
